@@ -196,6 +196,15 @@ pub fn run(ctx: &mut Ctx) {
             keys.push(format!("{}{}", a, b));
         }
     }
+    if ctx.tier_thorough {
+        for a in &cs {
+            for b in &cs {
+                for c in &cs {
+                    keys.push(format!("{}{}{}", a, b, c));
+                }
+            }
+        }
+    }
     for k in keys {
         if refmodel::is_op(&k) {
             continue;
